@@ -131,11 +131,14 @@ def LineWithinSquare(
     RtoP = points - R0
     angles = np.arctan2(RtoP[:, 1], RtoP[:, 0])
 
-    if (theta > angles[0]) and (theta <= angles[1]):
-        return lines_intersection(P1, P2, R0, R1)
-    elif (theta > angles[1]) and (theta <= angles[2]):
-        return lines_intersection(P2, P3, R0, R1)
-    elif (theta > angles[2]) and (theta <= angles[3]):
-        return lines_intersection(P3, P4, R0, R1)
-    else:
-        return lines_intersection(P4, P1, R0, R1)
+    # the corner angles increase anti-clockwise except over the one edge that crosses
+    # the branch cut of arctan2 at +-pi; which edge that is depends on the starting corner
+    for k in range(4):
+        lower, upper = angles[k], angles[(k + 1) % 4]
+        if lower <= upper:
+            within = (theta > lower) and (theta <= upper)
+        else:
+            within = (theta > lower) or (theta <= upper)
+        if within:
+            return lines_intersection(points[k], points[(k + 1) % 4], R0, R1)
+    return lines_intersection(P4, P1, R0, R1)
